@@ -246,12 +246,12 @@ def make_fuzz_engine(clauses, quick_runs, thorough_runs, quick_procs=8, thorough
             if m: total_exec += int(m.group(1))
             m2 = re.findall(r'cov: (\d+) ft: (\d+) corp: (\d+)', logtxt)
             if m2: cov.append(tuple(int(x) for x in m2[-1]))
-            for a in glob.glob(os.path.join(d, 'art', 'crash-*')): arts.append((a, logtxt))
+            for a in glob.glob(os.path.join(d, 'art', 'crash-*')): arts.append((a, logtxt, clauses[procs.index((d, p)) % len(clauses)]))
         # artifacts -> ordinary cases -> 3x replay on the property's configurations
         sos = [env['paths'][k] for k in sorted(env['paths'])]
         seen = set(); notrepro = 0
-        for a, logtxt in arts:
-            r = subprocess.run([env['exe'], 'decode-fuzz', ','.join(clauses), a, sos[0]], stdout=subprocess.PIPE, text=True)
+        for a, logtxt, pclause in arts:
+            r = subprocess.run([env['exe'], 'decode-fuzz', pclause, a, sos[0]], stdout=subprocess.PIPE, text=True)
             try: case = json.loads(r.stdout.strip() or '{}')
             except Exception: case = {}
             if not case: continue
@@ -264,7 +264,19 @@ def make_fuzz_engine(clauses, quick_runs, thorough_runs, quick_procs=8, thorough
             for _ in range(3):
                 rc_, outp = verif.do_replay(env['exe'], case['clause'], case['args'], use, env['kf_txt'])
                 if rc_ != 1: ok3 = False
-            if not ok3: notrepro += 1; continue
+            if not ok3:
+                notrepro += 1
+                # a semantic failure (the oracle inside the target fired) must reproduce; a sanitizer-only crash may not
+                # ... but then it must crash the instrumented target again, 3 times out of 3, to be reported
+                e2 = dict(os.environ, FUZZ_CLAUSES=pclause, FUZZ_KF=env['kf_txt'], ASAN_OPTIONS='detect_leaks=0:abort_on_error=1:symbolize=0', UBSAN_OPTIONS='print_stacktrace=0:symbolize=0')
+                rr = [subprocess.run([exe, a], env=e2, stdout=subprocess.PIPE, stderr=subprocess.STDOUT, text=True) for _ in range(3)]
+                if all(x.returncode != 0 for x in rr):
+                    if len(res['violations']) < 2:
+                        tail = rr[0].stdout[-1500:]
+                        msg = re.search(r'(ERROR: AddressSanitizer: [^\n]*|FUZZ-FAIL[^\n]*|runtime error: [^\n]*|ERROR: libFuzzer: [^\n]*)', rr[0].stdout)
+                        res['violations'].append(dict(property=prop, kind='fuzzart', clause=case['clause'], args=case['args'], fuzz_clause=pclause, artifact_hex=open(a, 'rb').read().hex(), cfg='fuzz-clang++-O1-c++17 (ASan+UBSan)', what='%s%s does not return normally in the instrumented build: %s [found by libFuzzer; not visible to the uninstrumented builds]' % (case['clause'], tuple(case['args']), msg.group(1) if msg else 'crash'), replay_output=tail, tier=tier, seed=seed))
+                elif 'FUZZ-FAIL' in logtxt: res['errors'].append('fuzz artifact %s (%s %s) failed inside the target once but neither through replay nor on re-execution:\n%s' % (a, case['clause'], case['args'], outp[-600:]))
+                continue
             if len(res['violations']) < 2:
                 m = re.search(r'FAIL on (\S+): (.*)', outp)
                 res['violations'].append(dict(property=prop, clause=case['clause'], args=case['args'], cfg=m.group(1) if m else '?', what=(m.group(2) if m else 'fuzz artifact reproduces') + ' [found by libFuzzer]', configs=[os.path.basename(s)[4:-3] for s in use], replay_output=outp, tier=tier, seed=seed))
@@ -308,4 +320,14 @@ def replay_extra(v, env):
             else: print('REPLAY C08.ce %s%s on %s: PASS' % (v['entry'], tuple(v['args']), kname))
         import shutil; shutil.rmtree(env['work'], ignore_errors=True)
         return 1 if bad else 0
+    if v.get('kind') == 'fuzzart':
+        import tempfile
+        env = dict(env); env['jobs'] = os.cpu_count() or 8
+        exe = build_fuzz_target(env)
+        tmp = tempfile.mkdtemp(prefix='fmv-fa-'); art = os.path.join(tmp, 'artifact'); open(art, 'wb').write(bytes.fromhex(v['artifact_hex']))
+        e2 = dict(os.environ, FUZZ_CLAUSES=v['fuzz_clause'], ASAN_OPTIONS='detect_leaks=0:abort_on_error=1:symbolize=0', UBSAN_OPTIONS='print_stacktrace=0:symbolize=0')
+        r = subprocess.run([exe, art], env=e2, stdout=subprocess.PIPE, stderr=subprocess.STDOUT, text=True)
+        print(r.stdout[-2000:]); shutil.rmtree(tmp, ignore_errors=True)
+        print('REPLAY %s %s in the instrumented fuzz build: %s' % (v['clause'], v['args'], 'FAIL' if r.returncode else 'PASS'))
+        return 1 if r.returncode else 0
     raise SystemExit('unknown replay kind %r' % v.get('kind'))
